@@ -1,2 +1,2 @@
--- stub: replaced by the family's driver
-def main : IO Unit := IO.println "family spin: no driver yet"
+import PrimitivModel.Driver.SpinDrv
+def main : IO Unit := Primitiv.Drv.SpinDrv.main
